@@ -15,7 +15,7 @@ from vlib.modules import PyMod
 from props.c02 import grl_ok
 
 ID = "C14"
-BUDGET = {"quick": 240, "thorough": 4000}
+BUDGET = {"quick": 240, "thorough": 2400}
 RULE = (
     "models from vlib.modelgen biased to conditionals, And/Or with 2-4 operands, Not, abs, floor, Mod, "
     "relational-as-number and ContinuousConditional, also in own-state position (so Rush-Larsen linearisations "
